@@ -1381,6 +1381,11 @@ func (e *MetaCDC) pauseTaskWithReason(taskID, reason string, currentStates []met
 		reason)
 	if err != nil {
 		log.Warn("fail to update task reason", zap.String("task_id", taskID), zap.String("reason", reason))
+		if len(currentStates) != 0 {
+			// a pause requested through the api that the meta store refuses leaves the task as it is,
+			// the pauses caused by a replicate error still stop the task
+			return err
+		}
 	}
 	e.cdcTasks.Lock()
 	cdcTask := e.cdcTasks.data[taskID]
